@@ -133,6 +133,7 @@ type Worker struct {
 	abort       interface{}
 	threadCnt   int
 	idleCalls   int
+	deadlockID  string
 	onceDone    map[string]bool
 	inOnce      int
 	reportedOnce map[string]bool
@@ -191,6 +192,7 @@ func (w *Worker) resetPath(prefix []Decision) {
 	w.sched = nil
 	w.threadCnt = 0
 	w.idleCalls = 0
+	w.deadlockID = ""
 	w.initThreads()
 	w.onceDone = nil
 	w.inOnce = 0
